@@ -384,6 +384,8 @@ def srv_nontrivial(inp, impl):
         ks.append("close-or-read-error")
     if ":1" in impl:
         ks.append("stream-items-delivered")
+    if " k" in inp:
+        ks.append("stream-readiness-by-events")
     if "V" in impl or "E" in impl:
         ks.append("replies-delivered")
     return ks
@@ -408,12 +410,12 @@ def run_srv_scenarios(names):
 
 
 SRV_ASSUME = [
-    "the service is the fixed family the harness implements (echo / error / stream of n always-ready items / undecodable call); answers depend on the call only (per-call deterministic service)",
+    "the service is the fixed family the harness implements (echo / error / stream of n items / undecodable call; a stream hands over a result - an item or its end - only while its client has an allowance, which `k<id>:<n>` events raise: until then its next() is pending); answers depend on the call only (per-call deterministic service)",
     "futures_util::select_biased!, fuse and StreamExt::next poll in the documented order (branch order; first ready wins); accept errors are not among the modelled events",
     "well-behaved connection = whole frames, close only after everything was sent, writable transport, whole per-connection stream below MAX_BUFFER_SIZE; nothing is assumed about other connections",
     "liveness: C08_quiescent proves that in every reachable idle state (no select branch can progress) every well-behaved connection whose bytes have all arrived has had all its calls answered (exactly the reference output); that the executor polls the server until idle is the waker contract (assumed); "
     "the oracle additionally checks the same at the end of each schedule",
-    "the flags on stream items follow one of four patterns of the test service (conventional / all true / alternating / unflagged); item readiness is immediate (stream::iter)",
+    "the flags on stream items follow one of four patterns of the test service (conventional / all true / alternating / unflagged); item readiness is an environment event in the model (Ev.produce) and in the harness (a stream type that is Pending without allowance); one case in 2 (srv-stream) / 4 (others) is gated, a third of those ends with streams still open and silent while every other connection must have been served in full",
 ]
 
 # ------------------------------------------------------------------------------------ envelope (C04, C05)
@@ -917,9 +919,10 @@ PROPS = {
     "C10": {
         "property_modules": ["Zlink.Properties.C10"], "lean_modules": ["Zlink.Properties.C10"],
         "theorems": ["C10.C10_stream_order", "C10.C10_items", "C10.C10_resume", "C10.C10_others_served",
+                     "C10.C10_open_stream_blocks_nobody", "C10.C10_pending_stream_untouched", "C10.C10_stream_rotation",
                      "C10.C10_unwritable_drops_only_subscription"],
         "run": run_srv_scenarios(["srv-stream"]), "trusted_base": TB_COMMON,
-        "assumptions": SRV_ASSUME + ["stream items are always ready in the model and the harness (futures stream::iter); item production as a separate environment event is not modelled yet"],
+        "assumptions": SRV_ASSUME + ["the service's stream is polled through StreamExt::next, which keeps no state of its own between polls (a dropped next() future loses nothing): assumed of futures_util, observed by the gated cases"],
     },
     "C18": {
         "property_modules": ["Zlink.Properties.C18"], "lean_modules": ["Zlink.Properties.C18"],
